@@ -83,7 +83,7 @@ def sep_ok(sep, left, right, dialect):
         return False
     if sep.endswith("/") and right is not None and right[1].startswith(("/", "*")):
         return False
-    if "#" in sep and dialect not in ("ISIS", "OMNI"):
+    if "#" in sep and dialect not in ("ISIS", "OMNI", "ISISx"):
         return False
     if "#" in sep and not sep[0] in " \t\n" and left is not None:
         return False
@@ -128,7 +128,7 @@ def needs_ws_padding(sep, left, right):
 
 def judge(acc, d, seq, want, seps, payload):
     text = render(seq, seps)
-    if d in ("ISIS", "OMNI") and _dash(text):
+    if d in ("ISIS", "OMNI", "ISISx") and _dash(text):
         return
     r = loaders.outcome(d, text)
     acc.n += 1
@@ -205,7 +205,7 @@ def shard_base(spec):
                 if j % nparts == part:
                     judge(acc, d, seq, want, {g: s}, {"base": bi})
     elif mode == "d2":
-        core = [""] + CORE + ([" # c\n"] if d in ("ISIS", "OMNI") else [])
+        core = [""] + CORE + ([" # c\n"] if d in ("ISIS", "OMNI", "ISISx") else [])
         for g1, g2 in itertools.combinations(G, 2):
             l1, r1 = neighbours(seq, g1)
             l2, r2 = neighbours(seq, g2)
@@ -343,7 +343,7 @@ def run(ctx):
     acc = Acc()
     B = bases()
     specs = []
-    for d in impl.DIALECTS:
+    for d in tuple(impl.DIALECTS) + ("ISISx",):
         for bi, seq in enumerate(B):
             ng = len(gaps_of(seq))
             specs += [(d, bi, "d1", p, 4) for p in range(4)]
@@ -368,7 +368,7 @@ def run(ctx):
     triples = acc.sets["triples"]
     cov = {
         "evaluations": acc.n, "distinct_nontrivial": acc.nontrivial,
-        "rule": "%d generated bases (%s tokens) x 5 dialects: all 1-gap deviations over %d separators (white-space "
+        "rule": "%d generated bases (%s tokens) x 5 dialects (+ the ISIS grammar given together with a separately built OmniDecoder): all 1-gap deviations over %d separators (white-space "
                 "kinds, runs, bare and padded comments, comment containing '= , (' and END, '#' comments for "
                 "ISIS/default), all 2-gap deviations over a %d-separator core%s, full product over 5 separators "
                 "for bases with <= 7 gaps; empty separator only where white space is optional; corpus: %d files "
